@@ -8,6 +8,7 @@ import (
 	"path/filepath"
 	"sort"
 	"strings"
+	"sync/atomic"
 	"time"
 
 	"github.com/risor-io/risor"
@@ -279,6 +280,13 @@ func runC03(rc *fw.RunCtx) {
 		// primitive or a slow OS call
 		armSiteFault(s, f, "cancel", func() { rc.Hit("fault_cancel_at_site"); cancel1() })
 	}
+	if kind == 3 && sos.YieldFn != nil && f.Chance(1, 2) {
+		// OS-touching program on a slow disk: the cancel lands while the script
+		// sits inside the device's Close (or Write) of a file, which is when the
+		// file's own cancellation watcher goes for the same file
+		site := []string{"simos.File.Close", "simos.File.Close", "simos.File.Write", "simos.File.Read"}[f.Intn(4)]
+		s.AtSite(site, 1+f.Intn(3), "cancel", func() { rc.Hit("fault_cancel_inside_file_op"); cancel1() })
+	}
 
 	// ---- API calls, each guarded
 	var panics []string
@@ -304,7 +312,7 @@ func runC03(rc *fw.RunCtx) {
 	second := g.Chance(1, 2)
 	bgLater := g.Chance(1, 3)
 	cloneCall := g.Chance(1, 3)
-	var staleCancel context.CancelFunc
+	var staleCancel atomic.Pointer[context.CancelFunc] // written by the main task, read at teardown
 	s.Go("main", "main", func() {
 		defer func() { finished = true }()
 		api("risor.Eval", func() {
@@ -324,7 +332,7 @@ func runC03(rc *fw.RunCtx) {
 			// the same VM again, with a fresh context; the first context is
 			// cancelled during this run (stale cancel)
 			ctx3, cancel3 := context.WithCancel(context.Background())
-			staleCancel = cancel3
+			staleCancel.Store(&cancel3)
 			if bgLater {
 				// a context that can never be cancelled, after cancellable ones
 				ctx3 = context.Background()
@@ -387,8 +395,8 @@ func runC03(rc *fw.RunCtx) {
 	}
 	verdict := s.Run()
 	s.Shutdown(func() { cancel1() }, func() { cancel2() }, func() {
-		if staleCancel != nil {
-			staleCancel()
+		if c := staleCancel.Load(); c != nil {
+			(*c)()
 		}
 	})
 	rc.AbsorbSim(s, strat.Name())
